@@ -99,6 +99,7 @@ class Interpolate(BaseFormOperator):
             return True
         return (
             type(self) is type(other)
+            and len(self._argument_slots) == len(other._argument_slots)
             and all(a == b for a, b in zip(self._argument_slots, other._argument_slots))
             and self.ufl_function_space() == other.ufl_function_space()
         )
